@@ -149,6 +149,7 @@ def scenarios(pid, tier, seed):
             {"args": ["scen", "family=walk", "count=%d" % (32 if q else 320), "len=60", "undo=15", "ops=genl", "sync=1", S], "shards": 16},
             {"args": ["scen", "family=transpositions", "count=%d" % (40 if q else 400), "ops=genl", "sync=1", S], "shards": 1},
             {"args": ["scen", "family=epfamilies", "ops=genl", "sync=1", S], "shards": 1},
+            {"args": ["scen", "family=revisits", "ops=genl", "walkpos=%d" % (60 if q else 2000), S], "shards": 4},
         ]
     if pid == "C03":
         return [
@@ -204,6 +205,7 @@ def scenarios(pid, tier, seed):
         ]
     if pid == "C07":
         return [
+            {"args": ["scen", "family=revisits", "search=1", "ops=snap", "walkpos=%d" % (30 if q else 1500), S], "shards": 4},
             {"args": ["scen", "family=searches", "depths=0,1,2", "pools=%s" % ("1,4,16" if q else "1,2,4,16,64"), "walkpos=%d" % (4 if q else 400), S], "shards": 16},
         ] + ([] if q else [
             {"args": ["scen", "family=searches", "depths=3", "pools=1,4,16,64", "maxpieces=12", "walkpos=200", S], "shards": 16},
